@@ -74,6 +74,19 @@ Theorem latch_all_atomics_seq_cst : ltac:(let T := type of LatchProofs.all_atomi
 Proof. exact LatchProofs.all_atomics_seq_cst. Qed.
 Theorem trigger_mo_table : ltac:(let T := type of TriggerMO.trigger_mo_table in exact T).
 Proof. exact TriggerMO.trigger_mo_table. Qed.
+(* every notify_all is issued while the notifier owns the condition variable's mutex (so a waiter can return only
+   after the notifier's last access to the members: no lifetime race when the consumer then destroys the variable);
+   and the unlocked fast path of wait() needs a releasing reset store and an acquiring load (Views fragment) *)
+Theorem trigger_notify_under_lock : ltac:(let T := type of TriggerMO.notify_under_lock in exact T).
+Proof. exact TriggerMO.notify_under_lock. Qed.
+Theorem trigger_section_exclusive : ltac:(let T := type of TriggerMO.trigger_section_exclusive in exact T).
+Proof. exact TriggerMO.trigger_section_exclusive. Qed.
+Theorem trigger_fast_path_ordered : ltac:(let T := type of TriggerMO.fast_path_ordered in exact T).
+Proof. exact TriggerMO.fast_path_ordered. Qed.
+Theorem trigger_reset_store_relaxed_refuted : ltac:(let T := type of TriggerMO.reset_store_relaxed_refuted in exact T).
+Proof. exact TriggerMO.reset_store_relaxed_refuted. Qed.
+Theorem trigger_fast_path_load_relaxed_refuted : ltac:(let T := type of TriggerMO.fast_path_load_relaxed_refuted in exact T).
+Proof. exact TriggerMO.fast_path_load_relaxed_refuted. Qed.
 
 (* rcu_list: the memory order of every atomic site (relaxed at exactly three: the load of the log head before
    the validating seq_cst CAS, the store into a record's next before the record is published by that CAS, the
